@@ -1,0 +1,65 @@
+//go:build verif
+
+package metrics
+
+// Contracts for govc (see /verif/DESIGN.md). Comment-only file: contributes no code.
+
+// ---- C20: metrics extraction from arbitrary response tails. gjson lookups and the expr VM are external: their
+// results are arbitrary values (any int64, any string, any interface value); expr.Run is trusted not to touch the
+// metrics record and to report evaluation problems as an error.
+//@ extern github.com/expr-lang/expr.Run(program, env)
+//@   trusted
+
+// profile lookups (configuration side, not backend data)
+//@ interface ProfileFactory.GetProfile
+//@ func (e *Extractor) ValidateProfile
+//@   trusted
+
+//@ spec func finiteMetrics(m *domain.ProviderMetrics) bool = !isNaN(m.TokensPerSecond) && !isInf(m.TokensPerSecond)
+
+//@ func (e *Extractor) mapFieldToMetrics
+//@   property C20
+//@   safety
+//@   requires e != nil
+//@   requires metrics != nil
+//@   modifies metrics.InputTokens, metrics.OutputTokens, metrics.TotalTokens, metrics.Model, metrics.FinishReason, metrics.IsComplete, metrics.PromptMs, metrics.TTFTMs, metrics.GenerationMs, metrics.TotalMs, metrics.ModelLoadMs
+
+//@ func (e *Extractor) runCalculations
+//@   property C20
+//@   safety
+//@   requires e != nil
+//@   overflow
+//@   requires metrics != nil && finiteMetrics(metrics)
+//@   modifies metrics.TokensPerSecond, metrics.TTFTMs, metrics.TotalMs, metrics.ModelLoadMs, metrics.TotalTokens
+//@   loop 2 invariant finiteMetrics(metrics)
+//@   replay metrics_totaltokens_overflow : metrics.InputTokens ; metrics.OutputTokens
+//@   ensures finiteMetrics(metrics)
+
+//@ func (e *Extractor) extractFromHeaders
+//@   property C20
+//@   safety
+//@   requires e != nil
+
+//@ func (e *Extractor) doExtract
+//@   property C20
+//@   safety
+//@   requires e != nil
+//@   requires e.profileFactory != nil
+//@   modifies *
+//@   ensures res == nil || finiteMetrics(res)
+
+//@ func (e *Extractor) ExtractMetrics
+//@   property C20
+//@   safety
+//@   requires e != nil
+//@   requires e.profileFactory != nil
+//@   modifies *
+//@   ensures res == nil || finiteMetrics(res)
+
+//@ func (e *Extractor) ExtractFromChunk
+//@   property C20
+//@   safety
+//@   requires e != nil
+//@   requires e.profileFactory != nil
+//@   modifies *
+//@   ensures res == nil || finiteMetrics(res)
